@@ -19,6 +19,8 @@ Ops15 == IF Mode = "historyd" THEN OpsD ELSE
          {Op("String", "ok"), Op("String", "bad"), Op("String", "missing"), Op("Response", "ok"), Op("Response", "bad"),
           Op("Response", "missing"), Op("EvalString", "ok"), Op("EvalString", "bad"), Op("EvalFile", "ok")}
          \cup (IF Mode # "response" THEN {Op("String", "bad-in-loop"), Op("String", "ok2"), Op("String", "bare")} ELSE {})     \* fails inside a loop after some passes produced output
+         \cup (IF Mode = "response" THEN {Op("Response", pg) : pg \in NotTemplates} ELSE {})
+         \cup (IF Mode = "history" THEN {Op("String", "layouts/main"), Op("String", "/ok"), Op("Response", "layouts/../ok")} ELSE {})
          \cup (IF Mode = "response" THEN {Op("Response", pg) : pg \in {"bad-in-component", "bad-in-layout", "bad-at-start", "bad-in-loop", "bad-in-slot", "bad-in-insert", "bad-in-array", "bad-in-args", "bad-in-object", "bad-in-for-cond", "bad-in-elseif", "bad-in-each-else", "bad-in-for-else", "bad-lt", "bad-in-assign"}} ELSE {})
          \cup (IF Mode = "history" THEN {Op("String", "setvar"), Op("String", "getvar"), Op("EvalString", "setvar"), Op("EvalString", "getvar"),
                                          Op("Response", "getvar")} ELSE {})
